@@ -1,10 +1,10 @@
 SPECIFICATION Spec
 CONSTANTS
-  Procs = {1, 2, 3, 4}
+  Procs = {1, 2, 3}
   Names = {"a", "b"}
   MaxCalls = 1
-  NopProcs = {4}
+  NopProcs = {3}
   Variant = "code"
-  Ctxs = {"live"}
+  Ctxs = {"live", "done"}
 INVARIANTS LawObeyed Accounted NopSticks MutexOK RegAgrees
 CHECK_DEADLOCK FALSE
